@@ -119,25 +119,37 @@ type vlkFiles struct {
 }
 
 func vlkNewFiles(t testing.TB) *vlkFiles {
-	dir, err := os.MkdirTemp("", "verif_c13_")
+	base := ""
+	if st, err := os.Stat("/dev/shm"); err == nil && st.IsDir() {
+		base = "/dev/shm" // tmpfs: the replay swaps the file tens of thousands of times
+	}
+	dir, err := os.MkdirTemp(base, "verif_c13_")
+	if err != nil {
+		dir, err = os.MkdirTemp("", "verif_c13_")
+	}
 	if err != nil {
 		t.Fatalf("mkdtemp: %v", err)
 	}
 	f := &vlkFiles{dir: dir, path: filepath.Join(dir, "phantom_subnets.toml")}
+	for n, txt := range map[string]string{"A": vlkTomlA, "B": vlkTomlB} {
+		if err := os.WriteFile(filepath.Join(dir, "content_"+n+".toml"), []byte(txt), 0o644); err != nil {
+			t.Fatalf("write: %v", err)
+		}
+	}
 	f.put("A")
 	os.Setenv("PHANTOM_SUBNET_LOCATION", f.path)
 	return f
 }
 
-// put replaces the subnet file atomically (rename), as an operator's deployment tool would
+// put replaces the subnet file at the configured path atomically (new inode renamed over the old one), as a
+// deployment tool would
 func (f *vlkFiles) put(which string) {
-	txt := vlkTomlA
-	if which == "B" {
-		txt = vlkTomlB
+	if which != "B" {
+		which = "A"
 	}
 	f.n++
 	tmp := filepath.Join(f.dir, fmt.Sprintf("tmp_%d", f.n))
-	if err := os.WriteFile(tmp, []byte(txt), 0o644); err != nil {
+	if err := os.Link(filepath.Join(f.dir, "content_"+which+".toml"), tmp); err != nil {
 		panic(err)
 	}
 	if err := os.Rename(tmp, f.path); err != nil {
@@ -447,7 +459,7 @@ func (w *vlkWorld) await(bound time.Duration, cond func(pr vlkProj) bool) (vlkPr
 			return pr, false
 		}
 		i++
-		if i < 20000 {
+		if i < 2000 {
 			runtime.Gosched()
 		} else {
 			time.Sleep(50 * time.Microsecond)
